@@ -367,7 +367,13 @@ fn gather_features(
         }
     } else {
         for feature in input_features {
-            features.push_front(feature.to_string());
+            // Without git config there are no custom features, but a builtin feature still
+            // brings the builtin features that it enables.
+            if builtin_features.contains_key(feature) {
+                gather_builtin_features_recursively(feature, &mut features, builtin_features, opt);
+            } else {
+                features.push_front(feature.to_string());
+            }
         }
     }
 
